@@ -227,7 +227,9 @@ def check_rewrites(name, text, nrew, rnd, acc, api, exhaustive_chunks=False):
         acc.cover('rewrite_kinds', desc.rsplit(',', 1)[0] + ',' + re.sub(r'\d+', '', desc.rsplit(',', 1)[1]))
         case = {'name': name, 'text': text, 'rewrite': arg if isinstance(arg, str) else list(arg)}
         try:
-            got = parse_script(arg_for_parse)
+            # (the optional start line number only offsets the line numbers of diagnostics: the model depends on the lines alone)
+            start_no = rnd.choice([None, None, 1, 7, 100, 2500])
+            got = parse_script(arg_for_parse) if start_no is None else parse_script(arg_for_parse, start_no)
         except perr as exc:
             fid = classify(exc, arg)
             if fid:
